@@ -289,7 +289,8 @@ func parseEpochs(s string) ([4]common.Epoch, error) {
 }
 
 // ConfigByID re-creates a configuration from its ID: "minimal", "mainnet", "minimal@a,b,c,d",
-// "fast@a,b,c,d", "rand:<seed>" (epochs: decimal or n = never).
+// "fast@a,b,c,d", "fast2@a,b,c,d", "mainnetconst@a,b,c,d", "rand:<seed>", "rand2:<seed>", "apart:<seed>"
+// (epochs: decimal or n = never).
 func ConfigByID(id string) (*Config, error) {
 	switch {
 	case id == "minimal":
@@ -308,6 +309,30 @@ func ConfigByID(id string) (*Config, error) {
 			return nil, err
 		}
 		return Fast(e[0], e[1], e[2], e[3]), nil
+	case strings.HasPrefix(id, "fast2@"):
+		e, err := parseEpochs(id[len("fast2@"):])
+		if err != nil {
+			return nil, err
+		}
+		return Fast2(e[0], e[1], e[2], e[3]), nil
+	case strings.HasPrefix(id, "mainnetconst@"):
+		e, err := parseEpochs(id[len("mainnetconst@"):])
+		if err != nil {
+			return nil, err
+		}
+		return MainnetConst(e[0], e[1], e[2], e[3]), nil
+	case strings.HasPrefix(id, "apart:"):
+		v, err := strconv.ParseInt(id[len("apart:"):], 10, 64)
+		if err != nil {
+			return nil, err
+		}
+		return Apart(v), nil
+	case strings.HasPrefix(id, "rand2:"):
+		v, err := strconv.ParseInt(id[len("rand2:"):], 10, 64)
+		if err != nil {
+			return nil, err
+		}
+		return RandomConfig2(v), nil
 	case strings.HasPrefix(id, "rand:"):
 		v, err := strconv.ParseInt(id[len("rand:"):], 10, 64)
 		if err != nil {
